@@ -7,6 +7,7 @@ package main
 import (
 	"fmt"
 	"os"
+	"runtime/pprof"
 	"sort"
 	"strconv"
 
@@ -46,6 +47,16 @@ func main() {
 		if mk == nil {
 			fmt.Fprintf(os.Stderr, "unknown property %s\n", id)
 			os.Exit(2)
+		}
+		if pf := os.Getenv("VERIF_PPROF"); pf != "" {
+			f, err := os.Create(pf)
+			if err == nil {
+				pprof.StartCPUProfile(f)
+			}
+			rc := checks.Run(mk(), tier, seed)
+			pprof.StopCPUProfile()
+			f.Close()
+			os.Exit(rc)
 		}
 		os.Exit(checks.Run(mk(), tier, seed))
 	default:
